@@ -207,3 +207,21 @@ M('C16', 'c16-delta-abs', [(CTL, "        delta = message.timestamp - self.last_
 M('C16', 'c16-sep-after-message', [(CTL, "        self.last_shown_timestamp = message.timestamp\n        message.show(self.out)", "        message.show(self.out)\n        if delta > 1.0:\n            self.out.show('gap')\n        self.last_shown_timestamp = message.timestamp"), (CTL, "        if delta > 1.0:\n            self.out.show(color(timestamp_color, '    ───┤ {:0.4f}s ├───'.format(delta)))\n", "")], 'C16.3')
 V('C16', 'c16v-flipped', [(CTL, "        if delta > 1.0:", "        if 1.0 < delta:")])
 V('C16', 'c16v-explicit-if', [(CTL, "        delta = message.timestamp - self.last_shown_timestamp if self.last_shown_timestamp is not None else 0\n", "        if self.last_shown_timestamp is None:\n            delta = 0.0\n        else:\n            delta = message.timestamp - self.last_shown_timestamp\n")])
+
+# ---- C12 -----------------------------------------------------------------------------------------
+M('C12', 'c12-error-resets', [(CTL, "            return old if old is not None else matcher.never", "            return matcher.never")], 'C12.1')
+M('C12', 'c12-error-silent', [(CTL, "            self.out.error('Failed to parse \"' + new_unparsed + '\":\\n    ' + str(e))\n            return old if", "            return old if")], 'C12.1')
+M('C12', 'c12-cross-wired', [(CTL, "            self.stop_matcher = self.parse_and_join(arg, self.stop_matcher)", "            self.stop_matcher = self.parse_and_join(arg, self.display_matcher)")], 'C12.2')
+M('C12', 'c12-filter-replaces', [(CTL, "            self.display_matcher = self.parse_and_join(arg, self.display_matcher)", "            self.display_matcher = self.parse_and_join(arg, None)")], 'C12.2')
+M('C12', 'c12-not-simplified', [(CTL, "                return matcher.join(parsed, old).simplify()", "                return matcher.join(parsed, old)")], 'C12')
+M('C12', 'c12-join-drops-negative', [(MAT, "    new_list.negative += old_list.negative\n", "")], 'C12.4')
+M('C12', 'c12-join-swaps-fields', [(MAT, "    new_list.positive += old_list.positive\n    new_list.negative += old_list.negative", "    new_list.positive += old_list.negative\n    new_list.negative += old_list.positive")], 'C12.4')
+M('C12', 'c12-join-only-old-const', [(MAT, "    if isinstance(old, AlwaysMatcher) or isinstance(new, AlwaysMatcher):\n        return new", "    if isinstance(old, AlwaysMatcher):\n        return new")], 'C12.4')
+M('C12', 'c12-join-returns-old-on-star', [(MAT, "    if isinstance(old, AlwaysMatcher) or isinstance(new, AlwaysMatcher):\n        return new", "    if isinstance(old, AlwaysMatcher):\n        return new\n    if isinstance(new, AlwaysMatcher):\n        return old")], 'C12.4')
+M('C12', 'c12-list-needs-all', [(MAT, "        result = False\n        for matcher in self.positive:\n            if matcher.matches(message):\n                result = True\n                break", "        result = len(self.positive) > 0\n        for matcher in self.positive:\n            if not matcher.matches(message):\n                result = False\n                break")], 'C12.5')
+M('C12', 'c12-list-ignores-negative', [(MAT, "        if result:\n            for matcher in self.negative:\n                if matcher.matches(message):\n                    result = False\n                    break\n        return result\n\n    def simplify(self) -> Matcher[T]:", "        return result\n\n    def simplify(self) -> Matcher[T]:")], 'C12.5')
+M('C12', 'c12-list-first-negative-only', [(MAT, "                if matcher.matches(message):\n                    result = False\n                    break\n        return result\n\n    def simplify(self) -> Matcher[T]:", "                if matcher.matches(message):\n                    result = False\n                break\n        return result\n\n    def simplify(self) -> Matcher[T]:")], 'C12.5')
+M('C12', 'c12-initial-unsimplified', [("frontends/tui/arguments.py", "            filter_matcher = matcher.parse(args.f).simplify()", "            filter_matcher = matcher.parse(args.f)")], 'C12.3')
+M('C12', 'c12-controller-matchers-swapped', [('main.py', "Controller(output, connection_list, args.filter_matcher, args.stop_matcher)", "Controller(output, connection_list, args.stop_matcher, args.filter_matcher)")], 'C12.3')
+M('C12', 'c12-as-list-wraps-negative', [(MAT, "        return MatcherList([matcher], [])", "        return MatcherList([], [matcher])")], 'C12.4')
+V('C12', 'c12v-old-truthiness-explicit', [(CTL, "            return old if old is not None else matcher.never", "            if old is None:\n                return matcher.never\n            return old")])
